@@ -631,6 +631,8 @@ class _SetOperation(Selectable, Term):  # type:ignore[misc]
         if self._orderbys:
             querystring += self._orderby_sql(ctx)
 
+        if self._limit is None and self._offset is not None:
+            querystring += self.base_query.LIMIT_FOR_BARE_OFFSET
         querystring += self._limit_sql(ctx)
         querystring += self._offset_sql(ctx)
 
@@ -691,6 +693,8 @@ class QueryBuilder(Selectable, Term):  # type:ignore[misc]
     """
 
     QUERY_CLS = Query
+    # what a dialect without grammar for OFFSET-without-LIMIT puts in front of a bare OFFSET (SQLite: " LIMIT -1")
+    LIMIT_FOR_BARE_OFFSET = ""
 
     def __init__(
         self,
@@ -1545,6 +1549,8 @@ class QueryBuilder(Selectable, Term):  # type:ignore[misc]
         return querystring
 
     def _apply_pagination(self, querystring: str, ctx: SqlContext) -> str:
+        if self._limit is None and self._offset is not None:
+            querystring += self.LIMIT_FOR_BARE_OFFSET
         querystring += self._limit_sql(ctx)
         querystring += self._offset_sql(ctx)
         return querystring
